@@ -58,6 +58,16 @@ impl Universe {
         near(&u.classes, &mut u.classes_other, "zz.Unknown");
         near(&u.methods, &mut u.methods_other, "zzUnknown");
         let mut params = params_in;
+        // near misses of every argument string (a comparator that only looks at a prefix would confuse them)
+        let base: Vec<String> = params.clone();
+        for p in &base {
+            if !p.is_empty() {
+                push_unique(&mut params, &format!("{}x", p));
+                let mut q = p.clone();
+                q.pop();
+                push_unique(&mut params, &q);
+            }
+        }
         push_unique(&mut params, "");
         push_unique(&mut params, "zz.Unknown");
         u.params = params;
